@@ -130,6 +130,11 @@ func genTape(rt *rapid.T, maxLen int) []int {
 
 var zones = []*time.Location{time.UTC, time.FixedZone("IST", 5*3600+1800), time.FixedZone("PST", -8*3600)}
 
+// firstHarnessPanic keeps the first machinery panic of the process: rapid's
+// shrinking would otherwise bury it under follow-up failures.
+var firstHarnessPanic string
+var lastScenario string
+
 // harnessPanic marks a panic raised by the harness itself (not by the code
 // under test): it is reported as machinery trouble (exit 2), never a verdict.
 type harnessPanic struct {
@@ -149,10 +154,13 @@ func RunCase(t *testing.T, p Property, scn any, knobs SimKnobs, tape []int, keep
 			// end-of-bubble "deadlock" panic caused by leaked, natively blocked tasks
 			if r := recover(); r != nil {
 				s := fmt.Sprint(r)
-				if strings.Contains(s, "blocked goroutines remain") || strings.Contains(s, "deadlock") {
+				if strings.Contains(s, "main bubble goroutine has exited but blocked goroutines remain") {
+					// leaked, natively blocked tasks of a finished case: harmless
 					out.Notes = append(out.Notes, "end-of-bubble: "+s)
 					return
 				}
+				// anything else (e.g. the root goroutine itself blocked) is machinery trouble
+				verifsim.Deactivate()
 				hp = &harnessPanic{val: r, stack: string(debug.Stack())}
 			}
 		}()
@@ -173,6 +181,13 @@ func RunCase(t *testing.T, p Property, scn any, knobs SimKnobs, tape []int, keep
 			cfg := verifsim.Config{
 				Tape: tape, PoolMode: knobs.PoolMode, MapSeed: knobs.MapSeed, Starve: knobs.Starve,
 				Offset: time.Duration(knobs.OffsetMs) * time.Millisecond, KeepTrace: keep, Watch: knobs.Watch,
+			}
+			if verifsim.Active() != nil {
+				verifsim.Deactivate()
+				panic(fmt.Sprintf("harness: previous case left its simulation active; previous scenario: %s", lastScenario))
+			}
+			if b, err := json.Marshal(scn); err == nil {
+				lastScenario = string(b)
 			}
 			sim := verifsim.New(cfg)
 			x := &Exec{T: t, Sim: sim, FS: fs, Out: out, Cfg: cfg, Keep: keep}
@@ -202,6 +217,9 @@ func RunCase(t *testing.T, p Property, scn any, knobs SimKnobs, tape []int, keep
 		})
 	}()
 	if hp != nil {
+		if firstHarnessPanic == "" {
+			firstHarnessPanic = fmt.Sprintf("%v\n%s", hp.val, hp.stack)
+		}
 		panic(*hp)
 	}
 	for _, f := range after {
@@ -269,4 +287,15 @@ func (x *Exec) clientsStuck() []string {
 		}
 	}
 	return out
+}
+
+// do runs f as a simulated task and schedules until quiescence. Anything that
+// can block on a library goroutine (Refresh, Destroy, Start, Stop) must go
+// through it: the root goroutine is the scheduler and must never block.
+// It reports whether f returned.
+func (x *Exec) do(name string, f func()) bool {
+	done := false
+	x.Sim.Spawn(name, func() { f(); done = true })
+	x.Sim.Run(nil)
+	return done
 }
